@@ -15,22 +15,24 @@ pub trait ArrVal: bytemuck::Pod + Default + Copy + Ord {
 pub struct Cnt<T>(pub T);
 unsafe impl<T: bytemuck::Pod> bytemuck::Zeroable for Cnt<T> {}
 unsafe impl<T: bytemuck::Pod> bytemuck::Pod for Cnt<T> {}
-impl<T: Ord> PartialEq for Cnt<T> {
+impl<T: Ord + Scalar> PartialEq for Cnt<T> {
     fn eq(&self, o: &Self) -> bool {
         // an equality test is an element comparison too
         CMP_COUNT.with(|c| *c.borrow_mut() += 1);
+        CMP_LOG.with(|l| l.borrow_mut().extend([self.0.to_i(), o.0.to_i()]));
         self.0 == o.0
     }
 }
-impl<T: Ord> Eq for Cnt<T> {}
-impl<T: Ord> PartialOrd for Cnt<T> {
+impl<T: Ord + Scalar> Eq for Cnt<T> {}
+impl<T: Ord + Scalar> PartialOrd for Cnt<T> {
     fn partial_cmp(&self, o: &Self) -> Option<Ordering> {
         Some(self.cmp(o))
     }
 }
-impl<T: Ord> Ord for Cnt<T> {
+impl<T: Ord + Scalar> Ord for Cnt<T> {
     fn cmp(&self, o: &Self) -> Ordering {
         CMP_COUNT.with(|c| *c.borrow_mut() += 1);
+        CMP_LOG.with(|l| l.borrow_mut().extend([self.0.to_i(), o.0.to_i()]));
         self.0.cmp(&o.0)
     }
 }
@@ -55,6 +57,7 @@ unsafe impl bytemuck::Pod for Pair {}
 impl PartialEq for Pair {
     fn eq(&self, o: &Self) -> bool {
         CMP_COUNT.with(|c| *c.borrow_mut() += 1);
+        CMP_LOG.with(|l| l.borrow_mut().extend([self.a as i128, o.a as i128]));
         self.a == o.a
     }
 }
@@ -67,6 +70,7 @@ impl PartialOrd for Pair {
 impl Ord for Pair {
     fn cmp(&self, o: &Self) -> Ordering {
         CMP_COUNT.with(|c| *c.borrow_mut() += 1);
+        CMP_LOG.with(|l| l.borrow_mut().extend([self.a as i128, o.a as i128]));
         self.a.cmp(&o.a)
     }
 }
@@ -77,6 +81,35 @@ impl ArrVal for Pair {
     fn kp(self) -> (i128, i128) {
         (self.a as i128, self.b as i128)
     }
+}
+
+/// clears the comparison log and returns the number of calls
+fn tc() -> u64 {
+    take_log();
+    take_count()
+}
+
+/// the number of distinct ELEMENTS the probe value was compared with (C06 bounds elements, not calls)
+fn elems_compared(probe: i128) -> u64 {
+    let log = take_log();
+    let mut set = std::collections::BTreeSet::new();
+    let mut self_hit = false;
+    for pr in log.chunks(2) {
+        if pr.len() < 2 {
+            continue;
+        }
+        if pr[0] == probe && pr[1] == probe {
+            self_hit = true;
+        } else {
+            if pr[0] != probe {
+                set.insert(pr[0]);
+            }
+            if pr[1] != probe {
+                set.insert(pr[1]);
+            }
+        }
+    }
+    set.len() as u64 + self_hit as u64
 }
 
 fn cellstr(kp: (i128, i128)) -> String {
@@ -118,7 +151,7 @@ macro_rules! arr_runner {
             out.push_str(&format!("case {}\n", case.id));
             for (i, op) in case.ops.iter().enumerate() {
                 tick();
-                take_count();
+                tc();
                 let name = op[0].as_str();
                 let a: Vec<i128> = op[1..].iter().map(|s| int(s)).collect();
                 if name == "ext" {
@@ -152,15 +185,16 @@ macro_rules! arr_runner {
                     continue;
                 }
                 let is_mut = matches!(name, "ins" | "rem" | "take" | "gmut");
-                let r: Option<(String, u64)> = guarded(|| {
+                let r: Option<(String, u64, u64)> = guarded(|| {
                     let res;
                     let cnt;
+                    let mut elems = 0u64;
                     if is_mut {
                         if h.is_none() {
                             h = Some($Mut::<V>::from_bytes_mut(unsafe { buf.static_mut() }));
                         }
                         let t = h.as_mut().unwrap();
-                        take_count();
+                        tc();
                         res = match name {
                             "ins" => (if t.insert(V::mk(a[0], a[1])) { "T" } else { "F" }).to_string(),
                             "rem" => (if t.remove(&V::mk(a[0], a[1])) { "T" } else { "F" }).to_string(),
@@ -178,12 +212,15 @@ macro_rules! arr_runner {
                             },
                             _ => unreachable!(),
                         };
+                        if name == "gmut" {
+                            elems = elems_compared(a.first().copied().unwrap_or(0));
+                        }
                         cnt = if name == "gmut" { take_count() } else { 0 };
-                        take_count();
+                        tc();
                     } else {
                         macro_rules! query {
                             ($t:expr) => {{
-                                take_count();
+                                tc();
                                 match name {
                                     "get" => match $t.get(&V::mk(a[0], a[1])) {
                                         Some(v) => format!("C{}", cellstr(v.kp())),
@@ -204,16 +241,17 @@ macro_rules! arr_runner {
                             let t = $Ro::<V>::from_bytes(unsafe { buf.static_ref() });
                             query!(t)
                         };
+                        elems = elems_compared(a.first().copied().unwrap_or(0));
                         cnt = take_count();
                     }
-                    (res, cnt)
+                    (res, cnt, elems)
                 });
                 match r {
                     None => {
                         out.push_str(&format!("{} r=P{}\n", i, if buf.guards_intact() { "" } else { " g=BAD" }));
                         break;
                     }
-                    Some((res, cnt)) => {
+                    Some((res, cnt, elems)) => {
                         if mode != "persistent" {
                             h = None;
                         }
@@ -232,7 +270,7 @@ macro_rules! arr_runner {
                         .unwrap_or("PANIC".to_string());
                         out.push_str(&format!("{} r={} d={:016x} abs={}", i, res, fnv(buf.bytes()), abs));
                         if name == "get" || name == "has" || name == "gmut" {
-                            out.push_str(&format!(" cm={}", cnt));
+                            out.push_str(&format!(" cm={} cl={}", cnt, elems));
                         }
                         if !buf.guards_intact() {
                             out.push_str(" g=BAD");
